@@ -15,9 +15,14 @@ def bank(tier):
         out += [(n, 2 * n - 1), (n, 2 * n), (n, 64 * n)]
     return out
 
+# shapes whose model count takes > 10 s in the OCaml driver: model-vs-hook comparison in the
+# thorough tier only (the implementation-side criteria below cover them in every tier)
+SLOW_MODEL = {(8192, 8192), (16384, 16384), (1024, 65536)}
+
 def generate(rng, tier):
-    cases = ["h.bank_cost %s %s" % (N(a), N(b)) for a, b in bank(tier)]
-    cases += ["h.bank_cost %s %s" % (N(b), N(a)) for a, b in bank(tier) if a != b and b <= 4096]
+    shapes = [s for s in bank(tier) if tier == "thorough" or s not in SLOW_MODEL]
+    cases = ["h.bank_cost %s %s" % (N(a), N(b)) for a, b in shapes]
+    cases += ["h.bank_cost %s %s" % (N(b), N(a)) for a, b in shapes if a != b and b <= 4096]
     lens = [1, 2, 3, 31, 32, 33, 34, 63, 64, 65, 66, 96, 127, 128, 129, 130, 255, 256, 257, 258, 300, 384, 512, 513, 600]
     n = 2000 if tier == "thorough" else 200
     for _ in range(n):
@@ -68,6 +73,16 @@ def extra_checks(ctx):
     for (a, b), c in cost.items():
         if c > a * b:
             viol.append({"kind": "cost-schoolbook", "note": "cost(%dx%d)=%d > %d" % (a, b, c, a * b), "case": "h.bank_cost n:%d n:%d" % (a, b)})
+    # thorough tier: the slow part of the in-Coq bank (2048, 4096, 1024x2047/2048, 256x16384)
+    if ctx["tier"] == "thorough":
+        rc, out = ctx["run"]("coqc -noglob $(grep -E '^-Q' _CoqProject | tr '\\n' ' ') -Q slow BigNum slow/MulCostBankBig.v",
+                             cwd=os.path.join(ctx["root"], "coq"), timeout=5400, shell=True)
+        cov["bank_big_theorem"] = "checked" if rc == 0 else "FAILED"
+        if rc != 0:
+            broken.append("obligation:bank_big (slow/MulCostBankBig.v)")
+            cov["bank_big_log"] = out[-600:]
+    else:
+        cov["bank_big_theorem"] = "not built in the quick tier (coq/slow/MulCostBankBig.v, ~12 min)"
     return {"coverage": cov, "broken": broken, "violations": viol}
 
 # ---- in-Coq cross-check of the extraction (small shapes only) ----------------------------
